@@ -10,7 +10,8 @@ Case language (all JSON-able):
                         | ["pytuple", [cs..]]                                     (python tuple shorthand -> TupleConstraint)
   value spec       vs :=  ["i", n] | ["f", bits] | ["b", [byte..]] | ["t", [codepoint..]] | ["B", bool] | ["N"]
                         | ["l", [vs..]] | ["T", [vs..]] | ["s", [vs..]] | ["fs", [vs..]] | ["d", [[k, v]..]]
-  wire spec        ws :=  ["wi", tbname, size, value] | ["wf", bits] | ["ws", vocab?, size, [byte..]]
+  wire spec        ws :=  ["wi", tbname, size, value] | ["wf", bits] | ["ws", vocab?, size, [byte..]]   (also inside
+                          OPEN unicode: the payload is the BODY BYTES, whatever they are -- a peer can put any there)
                         | ["wo", opentype, [ws..]] | ["wr", vs, argno]   (wr: OPEN reference to an earlier argument of shape vs)
                         | ["wq", k, partial vs]  (the same for an enclosing list / dict: the receiver holds the real, partially
                                           filled container; partial = the value it has when the reference arrives)
@@ -361,8 +362,9 @@ def slice_vs(vs, voc=None, seen=None):
     if k == "b":
         return str_ws(vs[1], bytes(vs[1]), voc)
     if k == "t":
-        # payload = code points; a lone surrogate is counted (and hand-encoded) in its generic three-byte form
-        return ["wo", "unicode", [str_ws(vs[1], to_py(vs).encode("utf-8", "surrogatepass"), voc)]]
+        # payload = the UTF-8 body bytes; a lone surrogate is hand-encoded in its generic three-byte form
+        raw = to_py(vs).encode("utf-8", "surrogatepass")
+        return ["wo", "unicode", [str_ws(list(raw), raw, voc)]]
     if k == "B":
         return ["wo", "boolean", [["wi", "INT", 1 if vs[1] else 0, 1 if vs[1] else 0]]]
     if k == "N":
@@ -443,7 +445,7 @@ class Enc:
             if ws[1]:
                 self.tok(tokens.VOCAB, ws[2])
             else:
-                body = "".join(chr(c) for c in ws[3]).encode("utf-8", "surrogatepass") if text else bytes(ws[3])
+                body = bytes(ws[3])                     # (also inside OPEN unicode: the payload is the body bytes)
                 assert len(body) == ws[2], (ws, body)
                 self.tok(tokens.STRING, ws[2], body)
         elif k == "wo":
@@ -1307,6 +1309,10 @@ def py_recv(cs, ws):
         if kids[0][0] != "ws":
             return "abort"
         if not free and not kids[0][1] and cs[1] is not None and kids[0][2] > 6 * cs[1]:
+            return "viol"
+        try:
+            bytes(kids[0][3]).decode("utf-8")            # "accept a UTF-8 encoded string"
+        except UnicodeDecodeError:
             return "viol"
         return "ok" if len(kids) == 1 else "abort"
     if ot == "boolean":
